@@ -118,4 +118,14 @@ CHECKS = {
         "real": ["octo_squirrel::manager::packet_window::PacketWindowFilter (a, b)"] + REAL_SYSTEM, "stub": STUB_SYSTEM,
         "assumptions": ASSUME_SYSTEM + ["the reference model is the harness's reading of the property statement (window 8128, limit exclusive)", "packet ids near 2^64 are exercised at component level only"],
     },
+    "C16": {
+        "level": "fault_enumeration",
+        "parts": [{"gen": "C16", "quick": 570, "thorough": 570, "exhaustive": True}],
+        "exhaustive_claim": True,
+        "rule": "exhaustive over the documented names (570 cases, the seed is the case index): every cipher name (7 + the chacha20-ietf-poly1305 alias) x every server mode (tcp, udp, tcp_and_udp, quic, tcp_and_quic), "
+                "default modes, every client mode x protocol, every Shadowsocks-2022 key length 0..48 bytes as client password, server password and user-table key, and 26 undocumented cipher / protocol / mode strings "
+                "or missing ciphers on either side. Each case boots the real client and server main() with that JSON. Oracle: the TCP listeners and UDP sockets in the simulated registry equal the documented set for the mode, "
+                "a canary TCP flow and/or UDP exchange works over them, undocumented names and wrong-length keys leave the affected side not serving and its main() ended; never a panic.",
+        "real": REAL_SYSTEM, "stub": STUB_SYSTEM, "assumptions": ASSUME_SYSTEM + ["the QUIC half of quic / tcp_and_quic is not simulated: only their TCP/UDP halves are checked", "that a named cipher is exactly the named algorithm with the named key derivation is decided by the interoperability check (C03)"],
+    },
 }
